@@ -158,7 +158,7 @@ func (p *Provider) Execute(ctx context.Context, name string, args []interface{})
 }
 
 func (p *Provider) process(c call) (rv returnValue) {
-	index, name, args := c.Value()
+	var index int
 	defer func() {
 		if e := recover(); e != nil {
 			err := core.NewPanicError(e)
@@ -169,6 +169,8 @@ func (p *Provider) process(c call) (rv returnValue) {
 			}
 		}
 	}()
+	index, _ = c[0].(int) // so that a malformed call is still answered under its own number
+	index, name, args := c.Value()
 	method := p.Get(name)
 	if method == nil {
 		return newReturnValue(index, nil, "Can't find this method "+name+"().")
